@@ -1,11 +1,12 @@
-// C04 — copy-on-write arrays behave as independent values            vp-link: core
+// C04 — copy-on-write arrays behave as independent values            vp-link: core cxx
 //
+// Scenario 1 (3 of 4 cases): C API.
 // G: history over 4 handle slots (plain array | slice window onto an array | raw encode_array) with one
 //    content flavour per case (raw bytes | 'c' characters | plain 4-byte elements). Operations of the C API:
 //    mpt_array_{append,insert,set,slice,reserve,clone,reduce,string}, mpt_buffer_{insert,cut,set} (only on
 //    buffers held by exactly one handle: that is the callers' precondition), mpt_slice_write,
-//    mpt_printf/mpt_vprintf, raw mpt_array_push, buffers seeded through _mpt_buffer_alloc(len, flags) with
-//    flags {0, Immutable, NoCopy, both}. Offsets/lengths near {0, used, size, 64, 128, 192} (+-2), past the
+//    mpt_printf/mpt_vprintf, raw mpt_array_push, buf->_vptr->detach(len), buffers seeded through
+//    _mpt_buffer_alloc(len, flags) with flags {0, Immutable, NoCopy, both}. Offsets/lengths near {0, used, size, 64, 128, 192} (+-2), past the
 //    end, and (rarely) near SIZE_MAX/LONG_MAX for the functions that carry an explicit overflow guard.
 // O: every handle has a std::vector<uint8_t> model with value semantics. After EVERY operation every handle
 //    is read back completely (length + bytes) and compared with its model:
@@ -15,12 +16,20 @@
 //      not-refused:<op>      arguments outside the data / capacity were accepted
 //      ret-address:<op>      the returned address is not the documented position inside the handle's buffer
 //      used-gt-size, slice-window   accounting invariants (_used <= _size, slice inside the used data)
+//      immutable-modified:<op>  a buffer created with BufferImmutable changed while a handle still holds it
 //    Refusal is always allowed (DESIGN sect. 4); all handles are released at the end (leak check on).
+// Scenario 2 (1 of 4 cases): C++ API (public members only), same oracle classes with the prefix "cxx-":
+//    bytes:  mpt::array {set, append, insert, prepend, =array, =iovec, +=iovec, +=span, +=content, =slice, printf, string} and
+//            mpt::slice {slice(array), shift, trim, write, data};
+//    typed:  typed_array<int32_t> | unique_array<int32_t> | pointer_array<int> {copy, =, insert, set, get, resize, reserve, detach,
+//            compact, swap, unused, offset} against std::vector<T>;
+//    map:    map<int32_t,int32_t> {set, append, get, values, copy} against an ordered vector of pairs.
 #include "vp.hpp"
 
 #include "mpt_c.hpp"
 
 #include <climits>
+#include <type_traits>
 
 using namespace vp;
 using namespace mpt;
@@ -63,6 +72,8 @@ struct World {
   int flavor = FRaw;
   const type_traits *ft = 0;
   std::string tagbuf;
+  struct Frozen { CBuf *b; std::vector<uint8_t> bytes; };
+  std::vector<Frozen> frozen;     // buffers created with BufferImmutable and their content at that time
 
   explicit World(Ctx &cc) : c(cc) {}
 
@@ -84,7 +95,7 @@ struct World {
   }
   Pre pre(int i, bool grow) {
     CBuf *b = h[i].buf();
-    Pre p = {sharers(b) > 1, b && (flags(b) & BufferImmutable), grow, false};
+    Pre p = {sharers(b) > 1, b && (flags(b) & BufferImmutable), grow && b && b->used, false};  // "at capacity": existing data had to move
     for (int j = 0; j < NH; j++) if (j != i && h[j].buf()) p.others = true;
     return p;
   }
@@ -162,6 +173,15 @@ struct World {
       int i = (target + 1 + k) % NH;
       read(i, got, op);
       if (got != h[i].m) mismatch(refused ? "refused-changed" : i == target ? "target-mismatch" : "other-changed", op, target, i, got);
+    }
+    // a buffer flagged immutable never changes while a handle still holds it
+    for (size_t k = 0; k < frozen.size();) {
+      CBuf *b = frozen[k].b;
+      if (!sharers(b) || !(flags(b) & BufferImmutable)) { frozen.erase(frozen.begin() + k); continue; }
+      const std::vector<uint8_t> &w = frozen[k].bytes;
+      VP_CHECK(c, b->used == w.size() && !memcmp(b->data(), w.data(), w.size()), tag("immutable-modified", op), "after %s on h%d: the immutable buffer seeded with %zu bytes %s now holds %zu bytes %s", op, target,
+               w.size(), hex(w.data(), w.size(), 16).c_str(), b->used, hex(b->data(), std::min(b->used, b->size), 16).c_str());
+      ++k;
     }
     if (c.verbose()) for (int i = 0; i < NH; i++) if (h[i].buf() || h[i].kind != KArray) c.logf("      %s", desc(i).c_str());
   }
@@ -360,6 +380,33 @@ struct World {
     verify("reduce", i, false);
   }
 
+  void op_detach() {  // the buffer interface itself, the way array_push.c, path_del.c, stage_data.c call it
+    int i = pick_array(true);
+    Handle &x = h[i];
+    CBuf *b = x.buf();
+    if (!b) { c.label("skip:detach"); return; }
+    size_t used = b->used, cap = b->size, e = esz(b->traits);
+    size_t len = al(c.near({0, used, used ? used - 1 : 0, cap, cap + 1, 64, 128, 192}, 400), e);
+    Pre p = pre(i, len > cap);
+    c.logf("  h%d: buf->detach(%zu)   [%s]", i, len, desc(i).c_str());
+    CBuf *n = b->vptr->detach(b, len);
+    c.logf("    = %s", !n ? "NULL" : n == b ? "same buffer" : "new buffer");
+    if (n) {
+      cbuf(x.arr()) = n;
+      std::vector<uint8_t> got;
+      read(i, got, "detach");
+      size_t alen = len % e ? len + e - len % e : len;
+      // content kept, or cut to the requested size when the data had to move to a smaller private buffer
+      bool ok = got == x.m || (alen < x.m.size() && got == std::vector<uint8_t>(x.m.begin(), x.m.begin() + alen));
+      if (!ok) mismatch("target-mismatch", "detach", i, i, got);
+      if (got != x.m) c.label("detach:cut");
+      x.m = got;
+      if (n != b && (p.shared || p.immutable)) wrote(p);
+    }
+    outcome("detach", n);
+    verify("detach", i, !n);
+  }
+
   void op_binsert() {
     int i = pick_private(false);
     if (i < 0) { c.label("skip:buffer_insert"); return; }
@@ -538,6 +585,8 @@ struct World {
     b->used = n;
     cbuf(x.arr()) = b;
     x.m = d;
+    for (size_t k = 0; k < frozen.size();) { if (frozen[k].b == b) frozen.erase(frozen.begin() + k); else ++k; }
+    if (fl & BufferImmutable) frozen.push_back(Frozen{b, d});
     c.logf("  h%d := _mpt_buffer_alloc(%zu, flags=%#x) content %s, %zu bytes %s", i, want, fl, tname(ft), n, hex(d.data(), d.size(), 8).c_str());
     c.label(fl == 0 ? "seed:plain" : (fl & BufferImmutable) ? "seed:immutable" : "seed:nocopy");
     verify("seed", i, false);
@@ -594,7 +643,7 @@ struct World {
   }
 
   // ---------------------------------------------------------------- history
-  enum { OAppend, OInsert, OSet, OSlice, OReserve, OClone, OReduce, OBInsert, OBCut, OBSet, OMkSlice, OSWrite, OPush, OSeed, OPrintf, OString, NOps };
+  enum { OAppend, OInsert, OSet, OSlice, OReserve, OClone, OReduce, OBInsert, OBCut, OBSet, OMkSlice, OSWrite, OPush, OSeed, OPrintf, OString, ODetach, NOps };
 
   void run() {
     TC = mpt_type_traits('c');
@@ -604,10 +653,10 @@ struct World {
     c.label(flavor == FRaw ? "flavor:raw" : flavor == FChar ? "flavor:char" : "flavor:t4");
     c.logf("C API history, content flavour %s", tname(ft));
     static const unsigned W[3][NOps] = {
-        //             app ins set sli res clo red bin bcu bse mks swr pus see prf str
-        /* raw  */ {10, 8, 1, 8, 4, 12, 2, 5, 6, 5, 5, 10, 6, 5, 1, 1},
-        /* char */ {1, 6, 8, 6, 4, 12, 2, 4, 5, 5, 1, 1, 0, 5, 14, 4},
-        /* t4   */ {1, 8, 12, 8, 5, 12, 2, 5, 6, 6, 1, 1, 0, 6, 0, 0},
+        //             app ins set sli res clo red bin bcu bse mks swr pus see prf str det
+        /* raw  */ {10, 8, 1, 8, 4, 12, 2, 5, 6, 5, 8, 12, 6, 5, 1, 1, 2},
+        /* char */ {1, 6, 8, 6, 4, 12, 2, 4, 5, 5, 1, 1, 0, 5, 14, 4, 2},
+        /* t4   */ {1, 8, 12, 8, 5, 12, 2, 5, 6, 6, 1, 1, 0, 6, 0, 0, 3},
     };
     unsigned tot = 0;
     for (unsigned w : W[flavor]) tot += w;
@@ -632,6 +681,7 @@ struct World {
         case OPush: op_push(); break;
         case OSeed: op_seed(); break;
         case OPrintf: op_printf(); break;
+        case ODetach: op_detach(); break;
         default: op_string(); break;
       }
     }
@@ -640,9 +690,604 @@ struct World {
   }
 };
 
+
+// =====================================================================================================
+// Scenario 2: C++ API
+// =====================================================================================================
+
+std::string vtag(const char *cls, const char *op) { return std::string("cxx-") + cls + ":" + op; }
+
+// ---- bytes: mpt::array and mpt::slice ---------------------------------------------------------------
+struct CxxBytes {
+  Ctx &c;
+  enum { NA = 3 };
+  array *a[NA];
+  std::vector<uint8_t> m[NA];
+  slice *s = 0;                              // window onto one of the arrays (shares its buffer)
+  std::vector<uint8_t> sm, sfront, sback;    // window, known bytes hidden before / behind it
+  bool back_known = true;
+
+  explicit CxxBytes(Ctx &cc) : c(cc) { for (auto &x : a) x = 0; }
+
+  std::vector<uint8_t> pattern(size_t n) {
+    uint8_t sd = c.u8();
+    std::vector<uint8_t> v(n);
+    for (size_t i = 0; i < n; i++) { uint8_t b = (uint8_t)(sd + 3 * i); v[i] = b ? b : 0x5a; }
+    return v;
+  }
+  std::string text(size_t n) {
+    uint8_t sd = c.u8();
+    std::string v(n, 'a');
+    for (size_t i = 0; i < n; i++) v[i] = (char)('a' + (sd + i) % 26);
+    return v;
+  }
+  static std::vector<uint8_t> bytes(const array &x) {
+    const array::content *d = x.data();
+    if (!d) return {};
+    const uint8_t *p = (const uint8_t *)d->data();
+    return std::vector<uint8_t>(p, p + d->length());
+  }
+  std::string desc(int i) {
+    const array::content *d = a[i]->data();
+    char t[120];
+    if (!d) snprintf(t, sizeof t, "a%d{no buffer}", i);
+    else snprintf(t, sizeof t, "a%d{%s used=%zu left=%zu%s}", i, d->content_traits() ? "typed" : "raw", d->length(), d->left(), a[i]->shared() ? " shared" : "");
+    return t;
+  }
+  void fail(const char *cls, const char *op, const char *who, const std::vector<uint8_t> &got, const std::vector<uint8_t> &want) {
+    size_t d = 0;
+    while (d < got.size() && d < want.size() && got[d] == want[d]) ++d;
+    size_t from = d > 8 ? d - 8 : 0;
+    c.fail(vtag(cls, op).c_str(), "after %s: %s reads %zu bytes, the value model has %zu bytes; first difference at %zu: read ..%s, model ..%s", op, who, got.size(), want.size(), d,
+           hex(got.data() + std::min(from, got.size()), got.size() - std::min(from, got.size()), 24).c_str(), hex(want.data() + std::min(from, want.size()), want.size() - std::min(from, want.size()), 24).c_str());
+  }
+  std::vector<uint8_t> window() {
+    span<const uint8_t> d = s->data();
+    const array::content *b = static_cast<const array *>(s)->data();
+    size_t used = b ? b->length() : 0;
+    VP_CHECK(c, d.size() >= 0 && (size_t)d.size() <= used && (!d.size() || (d.begin() >= (const uint8_t *)b->data() && d.begin() + d.size() <= (const uint8_t *)b->data() + used)), "cxx-slice-window",
+             "slice window of %ld bytes is not inside the %zu used bytes of its buffer", d.size(), used);
+    return std::vector<uint8_t>(d.begin(), d.begin() + d.size());
+  }
+  void verify(const char *op, int target, bool refused) {  // target: array index, NA = the slice, -1 none
+    for (int k = 0; k < NA; k++) {
+      int i = (target + 1 + k + NA + 1) % NA;
+      std::vector<uint8_t> got = bytes(*a[i]);
+      if (got != m[i]) fail(refused ? "refused-changed" : i == target ? "target-mismatch" : "other-changed", op, desc(i).c_str(), got, m[i]);
+    }
+    if (s) {
+      std::vector<uint8_t> got = window();
+      if (got != sm) fail(refused ? "refused-changed" : target == NA ? "target-mismatch" : "other-changed", op, "the slice", got, sm);
+    }
+    if (c.verbose()) { std::string l; for (int i = 0; i < NA; i++) l += " " + desc(i); c.logf("     %s%s", l.c_str(), s ? " +slice" : ""); }
+  }
+  bool writing(int i) {  // label/non-triviality: the write goes through a handle that shares its buffer while others hold data
+    bool sh = a[i]->shared();
+    if (sh) { c.label("cxx-nt:write-while-shared"); c.nontrivial(); }
+    return sh;
+  }
+  void outcome(const char *op, bool ok) { c.label((std::string(ok ? "cxx-ok:" : "cxx-refused:") + op).c_str()); }
+  size_t dsize(int i, size_t max) { size_t used = a[i]->length(), cap = used + a[i]->left(); return c.near({0, used, cap, 64, 128, 192}, max); }
+
+  void run() {
+    c.label("cxx:bytes");
+    c.logf("C++ API history: mpt::array / mpt::slice");
+    for (int i = 0; i < NA; i++) {
+      size_t cap = c.chance(96) ? c.near({1, 64, 65, 192}, 300) : 0;
+      a[i] = new array(cap);
+      c.logf("  a%d = array(%zu)", i, cap);
+    }
+    verify("create", -1, false);
+    unsigned nops = 0;
+    while (c.more() && nops++ < 40) {
+      int i = (int)c.pick(NA), j = (int)c.pick(NA);
+      array &x = *a[i];
+      size_t used = m[i].size();
+      switch (c.weighted({8, 8, 8, 3, 10, 2, 2, 2, 2, 2, 4, 2, 5, 4, 4, 6})) {
+        case 0: {  // set(len, base)
+          size_t len = dsize(i, 300);
+          bool zero = c.chance(48);
+          std::vector<uint8_t> d = zero ? std::vector<uint8_t>(len, 0) : pattern(len);
+          c.logf("  a%d.set(%zu, %s)   [%s]", i, len, zero ? "NULL" : hex(d.data(), d.size(), 8).c_str(), desc(i).c_str());
+          bool sh = writing(i);
+          void *r = x.set(len, zero ? 0 : (const void *)d.data());
+          c.logf("    = %s", r ? "address" : "NULL");
+          if (r) { VP_CHECK(c, x.data() && r == x.data()->data(), "cxx-ret-address:set", "set returned %p, the data of the array starts at %p", r, x.data() ? x.data()->data() : 0); m[i] = d; }
+          (void)sh; outcome("set", r); verify("set", i, !r);
+        } break;
+        case 1: {  // append
+          size_t len = c.near({0, x.left(), 64, 128, 192}, 300);
+          bool zero = c.chance(48);
+          std::vector<uint8_t> d = zero ? std::vector<uint8_t>(len, 0) : pattern(len);
+          c.logf("  a%d.append(%zu, %s)   [%s]", i, len, zero ? "NULL" : hex(d.data(), d.size(), 8).c_str(), desc(i).c_str());
+          writing(i);
+          void *r = x.append(len, zero ? 0 : (const void *)d.data());
+          c.logf("    = %s", r ? "address" : "NULL");
+          if (r) { VP_CHECK(c, x.data() && r == (uint8_t *)x.data()->data() + used, "cxx-ret-address:append", "append returned %p, appended data starts at %p + %zu", r, x.data() ? x.data()->data() : 0, used); m[i].insert(m[i].end(), d.begin(), d.end()); }
+          outcome("append", r); verify("append", i, !r);
+        } break;
+        case 2: case 3: {  // insert / prepend
+          bool pre = false;
+          size_t off = dsize(i, 300);
+          if (c.chance(64)) { pre = true; off = 0; }
+          size_t base = std::max(off, used), cap = used + x.left();
+          size_t len = c.near({0, 1, cap > base ? cap - base : 0, 64, 128}, 300);
+          bool zero = c.chance(48);
+          std::vector<uint8_t> d = zero ? std::vector<uint8_t>(len, 0) : pattern(len);
+          const char *op = pre ? "prepend" : "insert";
+          c.logf("  a%d.%s(%s%zu, %s)   [%s]", i, op, pre ? "" : (std::to_string(off) + ", ").c_str(), len, zero ? "NULL" : hex(d.data(), d.size(), 8).c_str(), desc(i).c_str());
+          writing(i);
+          void *r = pre ? x.prepend(len, zero ? 0 : (const void *)d.data()) : x.insert(off, len, zero ? 0 : (const void *)d.data());
+          c.logf("    = %s", r ? "address" : "NULL");
+          if (r) {
+            if (m[i].size() < off) m[i].resize(off, 0);
+            m[i].insert(m[i].begin() + off, d.begin(), d.end());
+            VP_CHECK(c, x.data() && r == (uint8_t *)x.data()->data() + off, vtag("ret-address", op).c_str(), "%s returned %p, the inserted data must start at %p + %zu", op, r, x.data() ? x.data()->data() : 0, off);
+          }
+          outcome(op, r); verify(op, i, !r);
+        } break;
+        case 4: {  // a = b
+          c.logf("  a%d = a%d   [%s <- %s]", i, j, desc(i).c_str(), desc(j).c_str());
+          x = *a[j];
+          m[i] = m[j];
+          c.label("cxx-ok:assign"); verify("assign", i, false);
+        } break;
+        case 5: case 6: {  // = iovec, += iovec  (no result: either nothing or everything)
+          bool add = c.flip();
+          size_t len = dsize(i, 300);
+          std::vector<uint8_t> d = pattern(len), want = add ? m[i] : std::vector<uint8_t>();
+          want.insert(want.end(), d.begin(), d.end());
+          struct iovec v = {d.data(), len};
+          c.logf("  a%d %s iovec{%zu bytes %s}   [%s]", i, add ? "+=" : "=", len, hex(d.data(), d.size(), 8).c_str(), desc(i).c_str());
+          writing(i);
+          if (add) x += v; else x = v;
+          bool done = bytes(x) == want;
+          if (done) m[i] = want;
+          outcome(add ? "+=iovec" : "=iovec", done); verify(add ? "+=iovec" : "=iovec", i, !done);
+        } break;
+        case 7: {  // += span
+          size_t len = c.near({0, x.left(), 64}, 200);
+          std::vector<uint8_t> d = pattern(len), want = m[i];
+          want.insert(want.end(), d.begin(), d.end());
+          c.logf("  a%d += span{%zu bytes}   [%s]", i, len, desc(i).c_str());
+          writing(i);
+          x += span<uint8_t>(d.data(), (long)len);
+          bool done = bytes(x) == want;
+          if (done) m[i] = want;
+          outcome("+=span", done); verify("+=span", i, !done);
+        } break;
+        case 8: {  // += content of another array
+          const array::content *src = a[j]->data();
+          if (!src || i == j) { c.label("cxx-skip:+=content"); break; }
+          std::vector<uint8_t> want = m[i];
+          want.insert(want.end(), m[j].begin(), m[j].end());
+          c.logf("  a%d += *a%d.data()   [%s, %s]", i, j, desc(i).c_str(), desc(j).c_str());
+          writing(i);
+          x += *src;
+          bool done = bytes(x) == want;
+          if (done) m[i] = want;
+          outcome("+=content", done); verify("+=content", i, !done);
+        } break;
+        case 9: {  // a = slice
+          if (!s) { c.label("cxx-skip:=slice"); break; }
+          c.logf("  a%d = slice   [%s, window %zu bytes]", i, desc(i).c_str(), sm.size());
+          writing(i);
+          x = *s;
+          bool done = bytes(x) == sm;
+          if (done) m[i] = sm;
+          outcome("=slice", done); verify("=slice", i, !done);
+        } break;
+        case 10: {  // printf
+          size_t L = c.near({0, 1, 63, 64, 65, 127, 128, x.left()}, 300);
+          std::string t = text(L);
+          int v = (int)c.u8();
+          bool two = c.flip();
+          char want[700];
+          int n = two ? snprintf(want, sizeof want, "%s=%d", t.c_str(), v) : snprintf(want, sizeof want, "%s", t.c_str());
+          c.logf("  a%d.printf(\"%s\", %zu characters)   [%s]", i, two ? "%s=%d" : "%s", L, desc(i).c_str());
+          writing(i);
+          int r = two ? x.printf("%s=%d", t.c_str(), v) : x.printf("%s", t.c_str());
+          c.logf("    = %d, the formatted text has %d characters", r, n);
+          if (r >= 0) m[i].insert(m[i].end(), want, want + n);
+          outcome("printf", r >= 0); verify("printf", i, r < 0);
+        } break;
+        case 11: {  // string
+          c.logf("  a%d.string()   [%s]", i, desc(i).c_str());
+          char *r = x.string();
+          c.logf("    = %s", r ? "address" : "NULL");
+          if (r) {
+            VP_CHECK(c, x.data() && r == x.data()->data(), "cxx-ret-address:string", "string() returned %p, data starts at %p", (void *)r, x.data() ? x.data()->data() : 0);
+            if (std::find(m[i].begin(), m[i].end(), 0) == m[i].end()) m[i].push_back(0);
+          }
+          outcome("string", r); verify("string", i, !r);
+        } break;
+        case 12: {  // new slice over an array
+          delete s;
+          s = new slice(*a[j]);
+          size_t n = a[j]->length();   // typed content is not visible to a slice (array::length() is 0)
+          sm.assign(m[j].begin(), m[j].begin() + std::min(n, m[j].size()));
+          if (n != m[j].size()) sm.clear();
+          sfront.clear(); sback.clear(); back_known = n == m[j].size();
+          c.logf("  slice = slice(a%d)   [%s]", j, desc(j).c_str());
+          c.label("cxx-ok:slice"); verify("slice", NA, false);
+        } break;
+        case 13: {  // shift
+          if (!s) { c.label("cxx-skip:shift"); break; }
+          bool neg = c.chance(96);
+          long n = neg ? -(long)c.near({0, 1, sfront.size(), sfront.size() + 1}, 300) : (long)c.near({0, 1, sm.size(), sm.size() + 1}, 300);
+          bool must = neg ? (size_t)-n > sfront.size() : (size_t)n > sm.size();
+          c.logf("  slice.shift(%ld)   [window %zu, hidden before %zu]%s", n, sm.size(), sfront.size(), must ? " out of range" : "");
+          bool r = s->shift(n);
+          c.logf("    = %d", r);
+          VP_CHECK(c, !(must && r), "cxx-not-refused:shift", "shift(%ld) accepted with a window of %zu bytes and %zu bytes hidden before it", n, sm.size(), sfront.size());
+          if (r && n >= 0) { sfront.insert(sfront.end(), sm.begin(), sm.begin() + n); sm.erase(sm.begin(), sm.begin() + n); }
+          if (r && n < 0) { sm.insert(sm.begin(), sfront.end() + n, sfront.end()); sfront.resize(sfront.size() + n); }
+          outcome("shift", r); verify("shift", NA, !r);
+        } break;
+        case 14: {  // trim
+          if (!s) { c.label("cxx-skip:trim"); break; }
+          bool neg = c.chance(96);
+          long n = neg ? -(long)c.near({0, 1, sback.size(), sback.size() + 1}, 300) : (long)c.near({0, 1, sm.size(), sm.size() + 1}, 300);
+          bool must = neg ? (back_known && (size_t)-n > sback.size()) : (size_t)n > sm.size();
+          c.logf("  slice.trim(%ld)   [window %zu, hidden behind %zu%s]%s", n, sm.size(), sback.size(), back_known ? "" : " (unknown)", must ? " out of range" : "");
+          bool r = s->trim(n);
+          c.logf("    = %d", r);
+          VP_CHECK(c, !(must && r), "cxx-not-refused:trim", "trim(%ld) accepted with a window of %zu bytes and %zu bytes behind it", n, sm.size(), sback.size());
+          if (r && n >= 0) { sback.insert(sback.begin(), sm.end() - n, sm.end()); sm.resize(sm.size() - n); }
+          if (r && n < 0) {
+            if (back_known) { sm.insert(sm.end(), sback.begin(), sback.begin() - n); sback.erase(sback.begin(), sback.begin() - n); }
+            else { std::vector<uint8_t> got = window(); if (got.size() == sm.size() + (size_t)-n && std::equal(sm.begin(), sm.end(), got.begin())) sm = got; else fail("target-mismatch", "trim", "the slice", got, sm); }
+          }
+          outcome("trim", r); verify("trim", NA, !r);
+        } break;
+        default: {  // slice write
+          if (!s) { c.label("cxx-skip:write"); break; }
+          size_t size = c.choose<size_t>({1, 1, 1, 2, 4, 8}), nblk = c.near({0, 1, 2, 64 / size, 192 / size}, 300 / size);
+          std::vector<uint8_t> d = pattern(nblk * size);
+          c.logf("  slice.write(%zu, %s, %zu)   [window %zu]", nblk, hex(d.data(), d.size(), 8).c_str(), size, sm.size());
+          if (static_cast<array *>(s)->shared()) { c.label("cxx-nt:write-while-shared"); c.nontrivial(); }
+          ssize_t r = s->write(nblk, d.data(), size);
+          c.logf("    = %zd", r);
+          if (r >= 0) {
+            VP_CHECK(c, (size_t)r <= nblk, "cxx-slice-write-count", "slice::write(nblk=%zu, size=%zu) reports %zd elements written", nblk, size, r);
+            sm.insert(sm.end(), d.begin(), d.begin() + (size_t)r * size);
+            if (r) { sback.clear(); back_known = false; }
+          }
+          outcome("write", r >= 0); verify("write", NA, r < 0);
+        } break;
+      }
+    }
+    if (s) { c.logf("  delete slice"); delete s; s = 0; verify("delete", -1, false); }
+    for (int i = 0; i < NA; i++) {
+      c.logf("  delete a%d", i);
+      delete a[i];
+      a[i] = new array();
+      m[i].clear();
+      verify("delete", i, false);
+    }
+    for (int i = 0; i < NA; i++) { delete a[i]; a[i] = 0; }
+  }
+};
+
+// ---- typed: typed_array<T> / unique_array<T> / pointer_array<P> against std::vector ------------------
+int g_pool[8];
+
+template <typename T> struct ValueOf {
+  static T draw(Ctx &c) { return (T)(int32_t)c.u16() - 1000; }
+  static std::string show(const T &v) { return std::to_string((long long)v); }
+};
+template <> struct ValueOf<int *> {
+  static int *draw(Ctx &c) { size_t k = c.pick(10); return k < 8 ? &g_pool[k] : (int *)0; }
+  static std::string show(int *const &v) { return v ? "&pool[" + std::to_string(v - g_pool) + "]" : "null"; }
+};
+
+enum TypedKind { TTyped, TUnique, TPointer };
+
+template <typename Arr, typename T, int Kind>
+struct CxxTyped {
+  Ctx &c;
+  enum { NA = 3 };
+  Arr *a[NA];
+  std::vector<T> m[NA];
+  const char *name;
+
+  CxxTyped(Ctx &cc, const char *n) : c(cc), name(n) { for (auto &x : a) x = 0; }
+
+  std::string show(const std::vector<T> &v) {
+    std::string r = "[";
+    for (size_t i = 0; i < v.size() && i < 12; i++) r += (i ? " " : "") + ValueOf<T>::show(v[i]);
+    if (v.size() > 12) r += " ..(" + std::to_string(v.size()) + ")";
+    return r + "]";
+  }
+  std::vector<T> elems(const Arr &x) {
+    long n = x.length();
+    T *b = x.begin();
+    VP_CHECK(c, n >= 0 && (n == 0 || b), "cxx-typed-length", "%s: length %ld with begin %p", name, n, (void *)b);
+    return std::vector<T>(b, b + n);
+  }
+  void verify(const char *op, int target, bool refused) {
+    for (int k = 0; k < NA; k++) {
+      int i = (target + 1 + k + NA + 1) % NA;
+      std::vector<T> got = elems(*a[i]);
+      if (got != m[i]) {
+        const char *cls = refused ? "refused-changed" : i == target ? "target-mismatch" : "other-changed";
+        c.fail(vtag(cls, (std::string(name) + "." + op).c_str()).c_str(), "after %s on a%d: a%d reads %zu elements %s, the value model has %zu elements %s", op, target, i, got.size(), show(got).c_str(), m[i].size(),
+               show(m[i]).c_str());
+      }
+    }
+    if (c.verbose()) { std::string l; for (int i = 0; i < NA; i++) l += " a" + std::to_string(i) + "=" + show(m[i]); c.logf("     %s", l.c_str()); }
+  }
+  void outcome(const char *op, bool ok) { c.label((std::string(ok ? "cxx-ok:" : "cxx-refused:") + name + "." + op).c_str()); }
+  bool shares(int i) { for (int j = 0; j < NA; j++) if (j != i && a[j]->length() && a[j]->begin() == a[i]->begin()) return true; return false; }
+  void writing(int i) { if (shares(i)) { c.label("cxx-nt:write-while-shared"); c.nontrivial(); } }
+  // model position of a possibly negative index (documented: negative counts from the end); -1 = outside
+  static long mpos(long pos, size_t len) { if (pos < 0) pos += (long)len; return pos; }
+
+  void run() {
+    c.label((std::string("cxx:") + name).c_str());
+    c.logf("C++ API history: %s", name);
+    for (int i = 0; i < 8; i++) g_pool[i] = i;
+    for (int i = 0; i < NA; i++) {
+      long cap = c.chance(128) ? (long)c.near({0, 1, 16, 17}, 40) : -1;
+      a[i] = cap < 0 ? new Arr() : new Arr(cap);
+      c.logf("  a%d = %s(%ld)", i, name, cap);
+    }
+    verify("create", -1, false);
+    unsigned nops = 0;
+    while (c.more() && nops++ < 40) {
+      int i = (int)c.pick(NA), j = (int)c.pick(NA);
+      Arr &x = *a[i];
+      size_t len = m[i].size();
+      unsigned op = (unsigned)c.weighted({12, 10, 10, 4, 5, 4, 3, 3, (unsigned)(Kind == TPointer ? 5 : 0), (unsigned)(Kind == TPointer ? 5 : 0), 2});
+      switch (op) {
+        case 0: {  // insert
+          long pos = c.chance(40) ? -(long)c.near({0, 1, len, len + 1}, 40) : (long)c.near({0, len, len + 1, 16, 48}, 60);
+          long p = mpos(pos, len);
+          T v = ValueOf<T>::draw(c);
+          bool must = p < 0;
+          c.logf("  a%d.insert(%ld, %s)   [%zu elements]%s", i, pos, ValueOf<T>::show(v).c_str(), len, must ? " out of range" : "");
+          writing(i);
+          bool r = do_insert(x, pos, p, v);
+          c.logf("    = %d", r);
+          VP_CHECK(c, !(must && r), vtag("not-refused", (std::string(name) + ".insert").c_str()).c_str(), "insert(%ld) into %zu elements succeeded", pos, len);
+          if (r) { if (m[i].size() < (size_t)p) m[i].resize(p, T()); m[i].insert(m[i].begin() + p, v); }
+          outcome("insert", r); verify("insert", i, !r);
+        } break;
+        case 1: {  // set
+          long pos = c.chance(40) ? -(long)c.near({0, 1, len, len + 1}, 40) : (long)c.near({0, len ? len - 1 : 0, len, 16}, 60);
+          long p = mpos(pos, len);
+          T v = ValueOf<T>::draw(c);
+          bool must = p < 0 || (size_t)p >= len;
+          c.logf("  a%d.set(%ld, %s)   [%zu elements]%s", i, pos, ValueOf<T>::show(v).c_str(), len, must ? " out of range" : "");
+          writing(i);
+          bool r = x.set(pos, v);
+          c.logf("    = %d", r);
+          VP_CHECK(c, !(must && r), vtag("not-refused", (std::string(name) + ".set").c_str()).c_str(), "set(%ld) on %zu elements succeeded", pos, len);
+          if (r) m[i][p] = v;
+          outcome("set", r); verify("set", i, !r);
+        } break;
+        case 2: {  // a = b (shares the buffer)
+          c.logf("  a%d = a%d", i, j);
+          x = *a[j];
+          m[i] = m[j];
+          outcome("assign", true); verify("assign", i, false);
+        } break;
+        case 3: {  // copy construction
+          c.logf("  a%d = %s(a%d)", i, name, j);
+          Arr *n = new Arr(*a[j]);
+          std::vector<T> keep = m[j];
+          delete a[i];
+          a[i] = n;
+          m[i] = keep;
+          outcome("copy", true); verify("copy", i, false);
+        } break;
+        case 4: {  // get
+          long pos = c.chance(48) ? -(long)c.near({0, 1, len, len + 1}, 40) : (long)c.near({0, len ? len - 1 : 0, len, len + 1}, 60);
+          long p = mpos(pos, len);
+          bool inside = p >= 0 && (size_t)p < len;
+          T *r = x.get(pos);
+          c.logf("  a%d.get(%ld) = %s   [%zu elements]", i, pos, r ? "address" : "NULL", len);
+          VP_CHECK(c, !r == !inside, vtag(inside ? "get-missing" : "not-refused", (std::string(name) + ".get").c_str()).c_str(), "get(%ld) on %zu elements returned %p", pos, len, (void *)r);
+          if (r) VP_CHECK(c, r == x.begin() + p && *r == m[i][p], vtag("target-mismatch", (std::string(name) + ".get").c_str()).c_str(), "get(%ld) points to element %ld with value %s, expected element %ld = %s", pos,
+                          (long)(r - x.begin()), ValueOf<T>::show(*r).c_str(), p, ValueOf<T>::show(m[i][p]).c_str());
+          outcome("get", r); verify("get", i, false);
+        } break;
+        case 5: {  // resize (new elements default filled)
+          long n = (long)c.near({0, len, len + 1, len ? len - 1 : 0, 16, 17}, 60);
+          c.logf("  a%d.resize(%ld)   [%zu elements]", i, n, len);
+          writing(i);
+          bool r = x.resize(n);
+          c.logf("    = %d", r);
+          if (r) m[i].resize(n, T());
+          outcome("resize", r); verify("resize", i, !r);
+        } break;
+        case 6: {  // reserve: content unchanged
+          long n = c.chance(32) ? -(long)c.near({0, 1, len, len + 1}, 40) : (long)c.near({0, len, len + 1, 16, 17}, 80);
+          c.logf("  a%d.reserve(%ld)   [%zu elements]", i, n, len);
+          bool r = x.reserve(n);
+          c.logf("    = %d", r);
+          outcome("reserve", r); verify("reserve", i, !r);
+        } break;
+        case 7: {  // detach: content unchanged, afterwards private
+          c.logf("  a%d.detach()", i);
+          bool r = x.detach();
+          c.logf("    = %d", r);
+          outcome("detach", r); verify("detach", i, !r);
+        } break;
+        case 8: do_compact(x, i); break;
+        case 9: do_swap(x, i, len); break;
+        default: {  // offset(): first element equal to the value, read only
+          T v = len && c.flip() ? m[i][c.pick(len)] : ValueOf<T>::draw(c);
+          long want = -1;
+          for (size_t k = 0; k < len; k++) if (m[i][k] == v) { want = (long)k; break; }
+          long r = x.offset(v);
+          c.logf("  a%d.offset(%s) = %ld", i, ValueOf<T>::show(v).c_str(), r);
+          VP_CHECK(c, r == want, vtag("target-mismatch", (std::string(name) + ".offset").c_str()).c_str(), "offset(%s) = %ld, the model has it at %ld", ValueOf<T>::show(v).c_str(), r, want);
+          verify("offset", i, false);
+        } break;
+      }
+    }
+    for (int i = 0; i < NA; i++) {
+      c.logf("  delete a%d", i);
+      delete a[i];
+      a[i] = new Arr();
+      m[i].clear();
+      verify("delete", i, false);
+    }
+    for (int i = 0; i < NA; i++) { delete a[i]; a[i] = 0; }
+  }
+
+  // typed_array / pointer_array: insert(pos, value); unique_array: insert(pos) returns the slot, the caller assigns
+  template <int K = Kind> typename std::enable_if<K != TUnique, bool>::type do_insert(Arr &x, long pos, long p, const T &v) { (void)p; return x.insert(pos, v); }
+  template <int K = Kind> typename std::enable_if<K == TUnique, bool>::type do_insert(Arr &x, long pos, long p, const T &v) {
+    T *slot = x.insert(pos);
+    if (!slot) return false;
+    VP_CHECK(c, p >= 0 && slot == x.begin() + p && p < x.length(), vtag("ret-address", (std::string(name) + ".insert").c_str()).c_str(), "insert(%ld) returned element %ld of %ld, expected element %ld", pos, (long)(slot - x.begin()),
+             x.length(), p);
+    *slot = v;
+    return true;
+  }
+  template <int K = Kind> typename std::enable_if<K == TPointer>::type do_compact(Arr &x, int i) {
+    c.logf("  a%d.compact()   [%ld unused]", i, x.unused());
+    long un = 0;
+    for (auto &v : m[i]) if (!v) ++un;
+    VP_CHECK(c, x.unused() == un, vtag("target-mismatch", (std::string(name) + ".unused").c_str()).c_str(), "unused() = %ld, the model has %ld null elements", x.unused(), un);
+    writing(i);
+    x.compact();
+    m[i].erase(std::remove(m[i].begin(), m[i].end(), (T)0), m[i].end());
+    outcome("compact", true); verify("compact", i, false);
+  }
+  template <int K = Kind> typename std::enable_if<K != TPointer>::type do_compact(Arr &, int) {}
+  template <int K = Kind> typename std::enable_if<K == TPointer>::type do_swap(Arr &x, int i, size_t len) {
+    long p1 = (long)c.near({0, len ? len - 1 : 0, len, len + 1}, 40), p2 = (long)c.near({0, len ? len - 1 : 0, len, len + 1}, 40);
+    bool must = (size_t)p1 >= len || (size_t)p2 >= len;
+    c.logf("  a%d.swap(%ld, %ld)   [%zu elements]%s", i, p1, p2, len, must ? " out of range" : "");
+    writing(i);
+    bool r = x.swap(p1, p2);
+    c.logf("    = %d", r);
+    VP_CHECK(c, !(must && r), vtag("not-refused", (std::string(name) + ".swap").c_str()).c_str(), "swap(%ld, %ld) on %zu elements succeeded", p1, p2, len);
+    if (r) std::swap(m[i][p1], m[i][p2]);
+    outcome("swap", r); verify("swap", i, !r);
+  }
+  template <int K = Kind> typename std::enable_if<K != TPointer>::type do_swap(Arr &, int, size_t) {}
+};
+
+// ---- map<int32_t,int32_t> against an ordered vector of pairs ------------------------------------------
+struct CxxMap {
+  typedef map<int32_t, int32_t> Map;
+  typedef std::vector<std::pair<int32_t, int32_t> > Model;
+  Ctx &c;
+  enum { NA = 3 };
+  Map *a[NA];
+  Model m[NA];
+  explicit CxxMap(Ctx &cc) : c(cc) { for (auto &x : a) x = 0; }
+
+  static Model entries(const Map &x) { Model r; for (Map::const_iterator e = x.begin(); e != x.end(); ++e) r.push_back(std::make_pair(e->key, e->value)); return r; }
+  static std::string show(const Model &v) {
+    std::string r = "{";
+    for (size_t i = 0; i < v.size() && i < 10; i++) r += (i ? " " : "") + std::to_string(v[i].first) + ":" + std::to_string(v[i].second);
+    if (v.size() > 10) r += " ..(" + std::to_string(v.size()) + ")";
+    return r + "}";
+  }
+  void verify(const char *op, int target, bool refused) {
+    for (int k = 0; k < NA; k++) {
+      int i = (target + 1 + k + NA + 1) % NA;
+      Model got = entries(*a[i]);
+      if (got != m[i]) {
+        const char *cls = refused ? "refused-changed" : i == target ? "target-mismatch" : "other-changed";
+        c.fail(vtag(cls, (std::string("map.") + op).c_str()).c_str(), "after %s on m%d: m%d reads %s, the value model has %s", op, target, i, show(got).c_str(), show(m[i]).c_str());
+      }
+    }
+    if (c.verbose()) { std::string l; for (int i = 0; i < NA; i++) l += " m" + std::to_string(i) + "=" + show(m[i]); c.logf("     %s", l.c_str()); }
+  }
+  bool shares(int i) { for (int j = 0; j < NA; j++) if (j != i && a[j]->begin() != a[j]->end() && a[j]->begin() == a[i]->begin()) return true; return false; }
+  void run() {
+    c.label("cxx:map");
+    c.logf("C++ API history: map<int32_t,int32_t>");
+    for (int i = 0; i < NA; i++) a[i] = new Map();
+    verify("create", -1, false);
+    unsigned nops = 0;
+    while (c.more() && nops++ < 40) {
+      int i = (int)c.pick(NA), j = (int)c.pick(NA);
+      Map &x = *a[i];
+      int32_t k = (int32_t)c.pick(6), v = (int32_t)c.u16();
+      size_t hit = 0;
+      while (hit < m[i].size() && m[i][hit].first != k) ++hit;
+      bool found = hit < m[i].size();
+      switch (c.weighted({10, 5, 6, 4, 3, 6})) {
+        case 0: {
+          c.logf("  m%d.set(%d, %d)   [%s]", i, k, v, found ? "key present" : "new key");
+          if (shares(i)) { c.label("cxx-nt:write-while-shared"); c.nontrivial(); }
+          bool r = x.set(k, v);
+          c.logf("    = %d", r);
+          if (r) { if (found) m[i][hit].second = v; else m[i].push_back(std::make_pair(k, v)); }
+          c.label(r ? (found ? "cxx-ok:map.set-existing" : "cxx-ok:map.set-new") : "cxx-refused:map.set"); verify("set", i, !r);
+        } break;
+        case 1: {
+          c.logf("  m%d.append(%d, %d)", i, k, v);
+          if (shares(i)) { c.label("cxx-nt:write-while-shared"); c.nontrivial(); }
+          bool r = x.append(k, v);
+          c.logf("    = %d", r);
+          if (r) m[i].push_back(std::make_pair(k, v));
+          c.label(r ? "cxx-ok:map.append" : "cxx-refused:map.append"); verify("append", i, !r);
+        } break;
+        case 2: {
+          int32_t *r = x.get(k);
+          c.logf("  m%d.get(%d) = %s", i, k, r ? "address" : "NULL");
+          VP_CHECK(c, !r == !found, found ? "cxx-get-missing:map.get" : "cxx-not-refused:map.get", "get(%d) returned %p, the model %s the key", k, (void *)r, found ? "has" : "does not have");
+          if (r) {
+            const Map::entry *b = x.begin();
+            long pos = (long)((const char *)r - (const char *)&b->value) / (long)sizeof(Map::entry);
+            VP_CHECK(c, r == &const_cast<Map::entry *>(b)[hit].value, "cxx-target-mismatch:map.get", "get(%d) points to the value of entry %ld of %zu, the first entry with the key is %zu", k, pos, m[i].size(), hit);
+          }
+          c.label("cxx-ok:map.get"); verify("get", i, false);
+        } break;
+        case 3: case 4: {
+          bool all = c.chance(96);
+          std::vector<int32_t> want;
+          for (auto &e : m[i]) if (all || e.first == k) want.push_back(e.second);
+          typed_array<int32_t> r = all ? x.values() : x.values(k);
+          std::vector<int32_t> got(r.begin(), r.begin() + r.length());
+          c.logf("  m%d.values(%s) = %zu values", i, all ? "" : std::to_string(k).c_str(), got.size());
+          VP_CHECK(c, got == want, "cxx-target-mismatch:map.values", "values(%s) returned %zu values, the model has %zu", all ? "" : std::to_string(k).c_str(), got.size(), want.size());
+          c.label("cxx-ok:map.values"); verify("values", i, false);
+        } break;
+        default: {
+          c.logf("  m%d = m%d", i, j);
+          x = *a[j];
+          m[i] = m[j];
+          c.label("cxx-ok:map.assign"); verify("assign", i, false);
+        } break;
+      }
+    }
+    for (int i = 0; i < NA; i++) {
+      c.logf("  delete m%d", i);
+      delete a[i];
+      a[i] = new Map();
+      m[i].clear();
+      verify("delete", i, false);
+    }
+    for (int i = 0; i < NA; i++) { delete a[i]; a[i] = 0; }
+  }
+};
+
+void run_cxx(Ctx &c) {
+  // objects are abandoned when an oracle fails (see run)
+  switch (c.weighted({4, 2, 2, 2, 2})) {
+    case 0: { CxxBytes *w = new CxxBytes(c); w->run(); delete w; } break;
+    case 1: { auto *w = new CxxTyped<typed_array<int32_t>, int32_t, TTyped>(c, "typed_array"); w->run(); delete w; } break;
+    case 2: { auto *w = new CxxTyped<unique_array<int32_t>, int32_t, TUnique>(c, "unique_array"); w->run(); delete w; } break;
+    case 3: { auto *w = new CxxTyped<pointer_array<int>, int *, TPointer>(c, "pointer_array"); w->run(); delete w; } break;
+    default: { CxxMap *w = new CxxMap(c); w->run(); delete w; } break;
+  }
+}
+
 void run(Ctx &c) {
   // everything the case creates is released by the history itself (final-release); when an oracle fails the
   // handles are abandoned on purpose: the library state is not trusted any more and the process is left
+  uint8_t sel = c.u8();
+  if (sel % 4 == 3) { c.label("scenario:cxx"); run_cxx(c); return; }
+  c.label("scenario:c");
   World *w = new World(c);
   w->run();
   delete w;
@@ -650,10 +1295,12 @@ void run(Ctx &c) {
 
 Target t = {
     "C04",
-    "random: history of <= 48 operations over 4 handle slots (array | slice window | raw encode_array), one content flavour per case (raw | 'c' | plain 4-byte elements); "
-    "operations mpt_array_{append,insert,set,slice,reserve,clone,reduce,string}, mpt_buffer_{insert,cut,set} on privately held buffers, mpt_slice_write, mpt_printf/mpt_vprintf, raw mpt_array_push, "
+    "random, scenario C API (3/4): history of <= 48 operations over 4 handle slots (array | slice window | raw encode_array), one content flavour per case (raw | 'c' | plain 4-byte elements); "
+    "operations mpt_array_{append,insert,set,slice,reserve,clone,reduce,string}, mpt_buffer_{insert,cut,set} on privately held buffers, mpt_slice_write, mpt_printf/mpt_vprintf, raw mpt_array_push, buffer detach(len), "
     "buffers seeded by _mpt_buffer_alloc(len, {0,Immutable,NoCopy,both}); offsets/lengths near {0, used, size, 64, 128, 192} +-2, past the end, rarely near SIZE_MAX/LONG_MAX; "
     "every handle read back and compared with a std::vector value model after every operation. "
+    "scenario C++ API (1/4): histories of <= 40 operations over 3 objects of mpt::array (+ one mpt::slice) | typed_array<int32_t> | unique_array<int32_t> | pointer_array<int> | map<int32_t,int32_t> "
+    "(set/append/insert/prepend/assign/iovec/span/content/printf/string, shift/trim/write, insert/set/get/resize/reserve/detach/compact/swap/offset, set/append/get/values) against std::vector models. "
     "non-trivial: a successful write went through a handle whose buffer was shared, immutable or too small while another handle held data (and was read afterwards); distinct by hash of the draw sequence.",
     run,
     {700, 2000},
